@@ -235,6 +235,19 @@ def resolve_sites(spec, regs, seq, blocked):
             sites.links[i] = len(sites)
             sites.append((p0 + 1, "ins" + e_ins, bool(t % 2), "ins", nm))
             break
+    # edge sites: a substitution at the very first / last base of the RefSeq (= an end of the mapped span on the genome),
+    # carried by every allele that carries the first site
+    for t in spec.get("edge", []):
+        p0 = 0 if t % 2 == 0 else L - 1
+        if any(x[0] == p0 + 1 for x in sites) or 0 in sites.links or not sites:
+            continue
+        nm = next((n2 for n2, a, e in regs if a <= p0 < e), None)
+        if nm is None or any(bl <= p0 < bh for bl, bh in blocked):
+            continue
+        ref = seq[p0]
+        alt = [c for c in "ACGT" if c != ref][(t // 4) % 3]
+        sites.links[0] = len(sites)
+        sites.append((p0 + 1, f"{ref}>{alt}", bool((t // 2) % 2), "snp", nm))
     return sites
 
 
@@ -427,7 +440,7 @@ KINDS_READS = ["snp", "snp", "snp", "ins", "del", "mnp"]
 
 @st.composite
 def db_specs(draw, kinds=KINDS_READS, max_sites=10, max_alleles=9, sv=True, pseudo=None, dual_opposite=None, gaps=True,
-             chrs=("7",), stress=False, small=False, name="GA", force_sv=False, twins=False, orphan_core=False, echo=False, keep_lost=False):
+             chrs=("7",), stress=False, small=False, name="GA", force_sv=False, twins=False, orphan_core=False, echo=False, keep_lost=False, edge=False):
     n_ex = draw(st.integers(2, 3 if small else 4))
     elen = st.sampled_from([30, 45, 60, 90] if small else [30, 60, 90, 120, 150])
     ilen = st.integers(40, 90) if small else st.integers(40, 220)
@@ -472,6 +485,8 @@ def db_specs(draw, kinds=KINDS_READS, max_sites=10, max_alleles=9, sv=True, pseu
     if twins:
         spec["twins"] = draw(st.lists(st.integers(0, 40), min_size=1, max_size=2))
         ns += len(spec["twins"])
+    if edge and draw(st.integers(0, 2)) == 0:
+        spec["edge"] = [draw(st.integers(0, 11))]
     if echo and any(x[2] == "ins" for x in spec["sites"]) and draw(st.integers(0, 1)) == 0:
         spec["echo"] = [draw(st.integers(0, 400))]
     plain = st.builds(lambda s, lab, dup, as_: {"sites": s, **({"label": lab} if lab else {}), **({"dup": True} if dup else {}),
